@@ -210,7 +210,8 @@ def main(replay=None):
             continue
         if zi[1:3] != bz[1:3] or len(fl) != len(bf):
             ck.violation("%s: shape (%s)" % (r["kind"], top), "gain shape differs", rep); continue
-        e = frob_rel(bf, fl); nontriv += 1
+        ne = zi[1] * zi[2]                      # EEG block, then MEG block
+        e = max(frob_rel(bf[:ne], fl[:ne]), frob_rel(bf[ne:], fl[ne:])); nontriv += 1
         cls = KINDS[r["kind"]]
         key = "%s/%s" % (cls, r["kind"])
         worst[key] = max(worst.get(key, 0.0), e)
@@ -229,12 +230,12 @@ def main(replay=None):
                 _, so, _ = core.run_harness(hb, lines, ck.workdir, timeout=900, tag="shrink")
                 for (v, what), l in zip(cands, so):
                     z2, f2 = core.fparse(l)
-                    if z2 and z2[0] == 0 and len(f2) == len(bf) and not (frob_rel(bf, f2) <= tol):
+                    if z2 and z2[0] == 0 and len(f2) == len(bf) and not (max(frob_rel(bf[:ne], f2[:ne]), frob_rel(bf[ne:], f2[ne:])) <= tol):
                         rep["cases"][1] = dict(model=v, fmt="tri", style="1.1", api=False, dips=base["dips"], sens=base["sens"], kind=r["kind"])
-                        rep["shrunk_to"] = what + " (difference %.3g)" % frob_rel(bf, f2)
+                        rep["shrunk_to"] = what + " (difference %.3g)" % max(frob_rel(bf[:ne], f2[:ne]), frob_rel(bf[ne:], f2[ne:]))
                         break
             ck.violation("%s changes the gain (%s)" % (r["kind"], top),
-                         "EEG gain of the %s re-description differs from the original by %.3g relative Frobenius (class %s, allowed %.3g) on a %s model" % (r["kind"], e, cls, tol, top), rep)
+                         "EEG/MEG gain of the %s re-description differs from the original by %.3g relative Frobenius (class %s, allowed %.3g) on a %s model" % (r["kind"], e, cls, tol, top), rep)
     if calibrate:
         am = max([v for k, v in worst.items() if k.startswith("asym/")] + [0.0]); e32 = max([v for k, v in worst.items() if k.startswith("exact32/")] + [0.0])
         os.makedirs(os.path.dirname(CALIB), exist_ok=True)
